@@ -30,10 +30,11 @@ func init() {
 		ID:       "C14",
 		Patterns: []string{"./memory"},
 		Explanation: "Row identity in the in-memory editors must be computed by typed comparison or by an injective, collation-aware encoding. Decided: (K1) no string produced by fmt-formatting a dynamically typed row cell (fmt.Sprint*/Fprint* with an interface-typed operand, directly or through strings.Builder / concatenation / helper functions / generic containers) is used as the key of a map lookup, update or delete: `%v` concatenation is not injective ((1,23) vs (12,3)) and ignores the column's collation; " +
-			"(K2) in the code reachable from the table editors (methods of the sql.EditOpenerCloser implementations of package memory, static calls plus class-hierarchy resolution of interface calls inside the package) no two row cells are compared with Go's == / != on interface values or reflect.DeepEqual: identity of key cells has to go through the column type's Compare (collation, padding, numeric equality).",
-		NotCovered: "the full duplicate logic over histories (IGNORE / REPLACE / ON DUPLICATE KEY handling), prefix lengths, NULL handling in unique indexes, integrator backends",
-		Technique:  "interprocedural SSA taint (sources: fmt formatting of interface-typed cells; sinks: map key operands) + SSA def-use classification of interface comparisons",
-		Run:        func(c *Ctx) { runC14(c, c14Repo) },
+			"(K2) in the code reachable from the table editors (methods of the sql.EditOpenerCloser implementations of package memory, static calls plus class-hierarchy resolution of interface calls inside the package) no two row cells are compared with Go's == / != on interface values or reflect.DeepEqual: identity of key cells has to go through the column type's Compare (collation, padding, numeric equality); " +
+			"(P) pending-edit precedence: for every implementation of memory.tableEditAccumulator the bodies of Insert and Delete are folded over every edit history (length <= 3) of one key (cmap.Map containers) or of two row values (list containers, only histories in which a delete names an existing row), starting from a table that does / does not hold the row; Get, GetByCols and ApplyEdits are then folded on the resulting pending state: the found flag of Get / GetByCols must equal 'the latest edit of the key is an insert, or there is no edit and the row is stored' (keyless: the net row count is positive) and ApplyEdits must leave exactly the rows the edits leave when applied in order.",
+		NotCovered: "how the editor and the plan nodes use the verdicts (IGNORE / REPLACE / ON DUPLICATE KEY handling), prefix lengths, NULL handling in unique indexes, the virtual-column branch of GetByCols (HasVirtualColumns is folded as false), interaction of several distinct keys that share a unique value (P tracks one key), what columnsMatch / the key function consider equal (K1, K2), integrator backends",
+		Technique:  "interprocedural SSA taint (sources: fmt formatting of interface-typed cells; sinks: map key operands) + SSA def-use classification of interface comparisons + finite-domain folding (eng_mini) of the accumulator methods over edit histories",
+		Run:        func(c *Ctx) { runC14(c, c14Repo); runC14P(c, c14pRepo) },
 		Fixture: func(c *Ctx, fx *Prog) {
 			p := c14Params{srcPkgs: []string{"testdata/c14/mem"}, flowPkgs: []string{"testdata/c14/cmap"}, rowRel: "testdata/c14/sql", rowType: "Row", ocIface: "EditOpenerCloser", floors: map[string]int{}}
 			expectFixture(c, fx, "c14: formatted keys and == on cells must be reported", []string{
@@ -41,8 +42,16 @@ func init() {
 				"C14-K1:testdata/c14/mem.acc.seen/formatted-cell-map-key",
 				"C14-K2:testdata/c14/mem.sameKey/cell-equality",
 			}, func(fc *Ctx) { runC14(fc, p) })
+			pp := c14pParams{memRel: "testdata/c14p/mem", sqlRel: "testdata/c14p/sql", cmapRel: "testdata/c14p/cmap", accIface: "accumulator", cmapType: "Map",
+				insertFn: "Insert", deleteFn: "Delete", getFn: "Get", byColsFn: "GetByCols", applyFn: "ApplyEdits", insertHelper: "insertHelper", deleteHelper: "deleteHelper",
+				matchFn: "columnsMatch", rowType: "Row", equalsFn: "Equals", tableDataType: "TableData", partitionsField: "partitions"}
+			expectFixture(c, fx, "c14p: readers that disagree with the writers of the pending edits must be reported", []string{
+				"C14-P:testdata/c14p/mem.keyedAcc.Get/latest-edit-wins",
+				"C14-P:testdata/c14p/mem.keyedAcc.ApplyEdits/latest-edit-wins",
+				"C14-P:testdata/c14p/mem.listAcc.ApplyEdits/net-count",
+			}, func(fc *Ctx) { runC14P(fc, pp) })
 		},
-		FixturePkgs: []string{"./testdata/c14/sql", "./testdata/c14/cmap", "./testdata/c14/mem"},
+		FixturePkgs: []string{"./testdata/c14/sql", "./testdata/c14/cmap", "./testdata/c14/mem", "./testdata/c14p/sql", "./testdata/c14p/cmap", "./testdata/c14p/mem"},
 	})
 }
 
